@@ -1,7 +1,6 @@
 package props
 
 import (
-	"bytes"
 	"fmt"
 	"os"
 	"runtime"
@@ -16,6 +15,7 @@ import (
 	"pgregory.net/rapid"
 
 	"verifharness/ev"
+	"verifharness/faults"
 	"verifharness/hx"
 )
 
@@ -120,8 +120,9 @@ func TestC11(t *testing.T) {
 				ops[i] = concOp{desc: mn + ".Sort(shared orders)", scratch: true, run: func() string { return snapFrame(m.Sort(sharedOrders...)) }}
 			case 3:
 				cols := []string{rapid.SampledFrom([]string{"i1", "s1", "e1", "f1"}).Draw(t, "dcol")}
-				ops[i] = concOp{desc: fmt.Sprintf("%s.Distinct(%q)", mn, cols), scratch: true, run: func() string {
-					d := m.Distinct(groupby.Columns(cols...), groupby.Null(true))
+				gnull := rapid.Bool().Draw(t, "dnull")
+				ops[i] = concOp{desc: fmt.Sprintf("%s.Distinct(%q, null=%v)", mn, cols, gnull), scratch: true, run: func() string {
+					d := m.Distinct(groupby.Columns(cols...), groupby.Null(gnull))
 					if d.Err != nil {
 						return d.Err.Error()
 					}
@@ -135,8 +136,9 @@ func TestC11(t *testing.T) {
 				for j, ag := range aggs {
 					real[j] = ag.Build(tab.MustCol(ag.Col).Kind)
 				}
-				ops[i] = concOp{desc: fmt.Sprintf("%s.GroupBy(%s).Aggregate(%v)", mn, key, aggs), scratch: true, run: func() string {
-					return multiset(m.GroupBy(groupby.Columns(key), groupby.Null(true)).Aggregate(real...))
+				gnull := rapid.Bool().Draw(t, "gnull")
+				ops[i] = concOp{desc: fmt.Sprintf("%s.GroupBy(%s, null=%v).Aggregate(%v)", mn, key, gnull, aggs), scratch: true, run: func() string {
+					return multiset(m.GroupBy(groupby.Columns(key), groupby.Null(gnull)).Aggregate(real...))
 				}}
 			case 5:
 				ops[i] = concOp{desc: "sharedGrouper.Aggregate(count,sum i1)", scratch: true, run: func() string {
@@ -205,11 +207,16 @@ func TestC11(t *testing.T) {
 					return sb.String()
 				}}
 			case 11:
-				ops[i] = concOp{desc: mn + " ToCSV+ToJSON+String", run: func() string {
-					var buf bytes.Buffer
-					e1 := m.ToCSV(&buf)
-					e2 := m.ToJSON(&buf)
-					return fmt.Sprintf("%v %v %s %s", e1, e2, buf.String(), m.String())
+				// now and then into a writer that fails after a few bytes (error paths release/reuse buffers too)
+				limit := -1
+				if rapid.IntRange(0, 2).Draw(t, "failingwriter") == 0 {
+					limit = rapid.IntRange(0, 40).Draw(t, "writelimit")
+				}
+				ops[i] = concOp{desc: fmt.Sprintf("%s ToCSV+ToJSON+String (writer limit %d)", mn, limit), run: func() string {
+					w1, w2 := &faults.FailWriter{Limit: limit}, &faults.FailWriter{Limit: limit}
+					e1 := m.ToCSV(w1)
+					e2 := m.ToJSON(w2)
+					return fmt.Sprintf("%v %v %s %s %s", e1 != nil, e2 != nil, w1.Accepted, w2.Accepted, m.String())
 				}}
 			case 12:
 				oi := rapid.IntRange(0, len(members)-1).Draw(t, "other")
